@@ -670,6 +670,12 @@ func runC07(c *engine.Ctx) {
 	// removed by another proxy's clean-up leaves the host unprotected or served by a less specific route ----
 	checkQueuedClosureCaptures(c, "R11")
 
+	// ---- R12 the request the credentials were checked on is the request that selects the route (shared with C02.R13) ----
+	checkRequestUntouchedOutsideHooks(c, "R12")
+
+	// ---- R13 a route is complete (credentials included) when it enters the table (shared with C16.R31) ----
+	checkInitBeforePublish(c, "R13")
+
 	// ---- R10 a tcpmux group checks CONNECT credentials of one kind only ----
 	c.Rule("R10", "a proxy joins an existing tcpmux group only when its httpUser and its httpPassword both equal the ones the group's route was registered with (the route checks the first member's credentials for every member)")
 	if tmgT := c.P.Named("server/group", "TCPMuxGroup"); tmgT != nil {
